@@ -7,6 +7,8 @@ at every exit, on every path. R2 the from-scratch computation and the
 incremental API use the same (component, table, index) triples. R3 the pawn
 key is touched only by pawn toggles. R4 no key mutator depends on counters or
 history; get_key is the XOR of exactly the five components."""
+import re
+
 from facts import AnalysisBroken
 from prog import walk, kids, short, access_kind
 from rules import flow
@@ -109,8 +111,55 @@ def in_sync(st, entry):
     return okc, oke
 
 
+def key_primitives(ctx, p):
+    """R6: what each incremental update of the key does to the five components (effects per case, rules/cases.effects_under)"""
+    from rules.cases import effects_under
+    pkk = p.enum('engine::PieceKind')
+
+    def eff(name, val=None, keep=()):
+        f = p.fn(HK + '::' + name)
+        ctx.analysed(f)
+        return f, effects_under(f, kids(f.body), val or {}, keep=keep)
+    table = [
+        ('flip_side', {}, ['(_color_key^=SIDE_HASH)'], 'the side component toggles the side constant'),
+        ('clear_enpassant', {}, ['(_enpassant_key=0)'], 'the e.p. component becomes empty'),
+        ('set_enpassant', {}, ['(_enpassant_key=ENPASSANT_HASH[file])'], 'the e.p. component becomes the constant of the file'),
+        ('clear_castling', {}, ['(_castling_key=0)'], 'the castling component becomes empty'),
+        ('set_castling', {}, ['(_castling_key=CASTLING_HASH[castling])'], 'the castling component becomes the constant of the rights set'),
+        ('move_piece', {}, ['toggle_piece(piece,from)', 'toggle_piece(piece,to)'], 'moving a piece toggles it on its origin and on its target'),
+    ]
+    for name, val, want, what in table:
+        f, got = eff(name, val)
+        ok = sorted(got) == sorted(want)
+        if not ok and not (set(got) <= set(want)):
+            unknown = [g for g in got if g not in want]
+            # an effect on a key component that is not the prescribed one is a wrong update; anything else is unknown
+            if not all(re.match(r'^\(_\w+_key', u) or u.startswith('toggle_piece(') for u in unknown):
+                raise AnalysisBroken('C04.R6: %s does `%s`, which the rule does not know' % (name, unknown[0]))
+        ctx.ob('C04.R6.key-primitive', name, ok, '%s (%s)' % (what, got), site=f.loc())
+    for kind, comp in (('PAWN', '_pawn_key'), ('KNIGHT', '_piece_key'), ('KING', '_piece_key')):
+        val = {'get_piece_kind(piece)': pkk[kind], 'make_piece_kind(piece)': pkk[kind]}
+        f, got = eff('toggle_piece', val)
+        want = ['(%s^=PIECE_HASH[piece][sq])' % comp]
+        if got != want and not all(re.match(r'^\(_\w+_key', u) for u in got):
+            raise AnalysisBroken('C04.R6: toggle_piece does `%s`, which the rule does not know' % got)
+        ctx.ob('C04.R6.key-primitive', 'toggle_piece:%s' % kind, got == want,
+               'toggling a %s toggles its constant in the %s component (%s)' % (kind.lower(), 'pawn' if comp == '_pawn_key' else 'piece', got), site=f.loc())
+    gk = p.fn(HK + '::get_key')
+    ctx.analysed(gk)
+    got = effects_under(gk, kids(gk.body), {})
+    from rules.norm import Norm as _Nk
+    ctx.ob('C04.R6.key-composition', 'get_key', got == ['return (_castling_key^_color_key^_enpassant_key^_pawn_key^_piece_key)'],
+           'the key is the XOR of the five components (%s)' % got, site=gk.loc())
+    gp = p.fn(HK + '::get_pawnkey')
+    ctx.analysed(gp)
+    got = effects_under(gp, kids(gp.body), {})
+    ctx.ob('C04.R6.key-composition', 'get_pawnkey', got == ['return _pawn_key'], 'the pawn key is the pawn component (%s)' % got, site=gp.loc())
+
+
 def check(ctx):
     p = ctx.prog()
+    key_primitives(ctx, p)
     muts = {}
     for nm in ('do_move', 'undo_move', 'do_null_move', 'undo_null_move', 'set_enpassant_square'):
         muts[nm] = p.fn(POS + '::' + nm)
